@@ -31,7 +31,7 @@ class C06System(BuilderSystem):
         return [
             ["tool_off"], ["power_off"], ["coolant_off"],
             ["emergency_halt", [MSG]], ["emergency_halt", [MSG, True]],
-            ["emergency_halt", [""]], ["emergency_halt", ["first line\nsecond line", True]], ["emergency_halt", ["   "]], ["emergency_halt", [LONG]],
+            ["emergency_halt", [""]], ["emergency_halt", ["first line\nsecond line", True]], ["emergency_halt", ["   "]], ["emergency_halt", [LONG]], ["emergency_halt", ["Spindle stalled\rM03 S20000\r\nM08"]],
             ["tool_on", ["clockwise", p1]], ["tool_on", ["counter", p2]],
             ["power_on", ["constant", p2]], ["power_on", ["dynamic", p1]],
             ["coolant_on", ["mist"]], ["coolant_on", ["flood"]],
@@ -67,6 +67,8 @@ class C06System(BuilderSystem):
     def _step(self, st, op):
         problems = []
         exc, chunks = self.apply(st, op)
+        if op[0] == "format.set_comment_symbols" and exc is None:
+            st.style = op[1][0]
         self.feed(st, chunks, problems)
         name = op[0]
         s = st.g.state
@@ -87,7 +89,7 @@ class C06System(BuilderSystem):
                     msg = op[1][0]
                     if "\n" not in msg and msg.strip() and not carries(st.last_lines[2], msg):
                         problems.append(("emergency-message-missing", f"third line {st.last_lines[2]!r} lacks the message"))
-                    if not st.last_lines[2].lstrip().startswith(self.style):
+                    if not st.last_lines[2].lstrip().startswith(getattr(st, "style", None) or self.style):
                         problems.append(("emergency-message-not-comment", f"third line {st.last_lines[2]!r} is not a comment"))
                     if st.last_infos[2]["others"] or st.last_infos[2]["codes"]:
                         problems.append(("emergency-message-not-comment", f"third line {st.last_lines[2]!r} has executable words"))
@@ -109,6 +111,8 @@ class C06System(BuilderSystem):
 
 
 class C06LiveBounds(C06System):
+    replay_only = True
+
     """Bounds are (re)configured while the program is being built: ranges that exclude the power the tool is running at, the
     feed rate in effect or the temperature targets already set."""
 
@@ -120,11 +124,13 @@ class C06LiveBounds(C06System):
                and o[:2] not in (["emergency_halt", [""]], ["emergency_halt", ["   "]], ["emergency_halt", ["first line\nsecond line", True]])]
         ops += [["tool_on", ["clockwise", 50]], ["power_on", ["constant", 2500]], ["set_tool_power", [50]]]
         ops += [["set_bounds", list(r)] for r in self.RANGES]
+        # the comment style is changed on the live formatter as well (the long message contains brackets)
+        ops += [["format.set_comment_symbols", ["("]], ["format.set_comment_symbols", [";"]], ["emergency_halt", [LONG]]]
         return ops
 
     def canon(self, st):
         s = st.g.state
-        return super().canon(st) + tuple(repr(s.get_bounds(n)) for n in ("tool-power", "feed-rate", "bed-temperature", "tool-number"))
+        return super().canon(st) + tuple(repr(s.get_bounds(n)) for n in ("tool-power", "feed-rate", "bed-temperature", "tool-number")) + (getattr(st, "style", ";"),)
 
 
 def systems(tier):
